@@ -100,3 +100,126 @@ def deadlockWitness : State :=
   { threads := [⟨[.acquire, .release, .release]⟩, ⟨[.acquire, .step, .release]⟩], holder := some 0 }
 
 end Sst.Sched
+
+/-
+  The same threads with a shared counter: the cache id allocation of `Table::new`
+  (`let mut c = opt.block_cache.write()?; c.new_cache_id()`, where `new_cache_id` is
+  `self.id += 1; self.id`) is a read-modify-write of a shared counter. `load` copies the counter into
+  the thread's register, `store` writes `register + 1` back and returns it as the new id (recorded in
+  a ghost log). Whether the pair is atomic depends on the lock — which is what the model decides.
+  (The counter is an unbounded `Nat` here; the `u64` wrap-around of the crate is not modelled.)
+-/
+namespace Sst.SchedS
+
+inductive Instr where
+  | acquire | release | step
+  /-- thread-local register := shared counter -/
+  | load
+  /-- shared counter := register + 1; the id `register + 1` is handed out -/
+  | store
+  deriving DecidableEq, Repr
+
+structure Thread where
+  /-- remaining program -/
+  prog : List Instr
+  /-- the thread-local register -/
+  reg : Nat := 0
+  deriving DecidableEq, Repr
+
+structure State where
+  threads : List Thread
+  /-- index of the thread holding the lock -/
+  holder : Option Nat
+  /-- the shared counter (`Cache::id`) -/
+  counter : Nat
+  /-- ghost: the ids handed out so far, oldest first, as (thread, id) -/
+  log : List (Nat × Nat)
+  deriving DecidableEq, Repr
+
+/-- as in `Sched.enabled`; `load` and `store` are ordinary instructions: always enabled -/
+def enabled (s : State) (i : Nat) : Bool :=
+  match s.threads[i]? with
+  | none => false
+  | some t =>
+    match t.prog with
+    | [] => false
+    | .acquire :: _ => decide (s.holder = none)
+    | .release :: _ => decide (s.holder = some i)
+    | .step :: _ => true
+    | .load :: _ => true
+    | .store :: _ => true
+
+def stepThread (s : State) (i : Nat) : State :=
+  match s.threads[i]? with
+  | none => s
+  | some t =>
+    match t.prog with
+    | [] => s
+    | .acquire :: p => { s with threads := s.threads.set i ⟨p, t.reg⟩, holder := some i }
+    | .release :: p => { s with threads := s.threads.set i ⟨p, t.reg⟩, holder := none }
+    | .step :: p => { s with threads := s.threads.set i ⟨p, t.reg⟩ }
+    | .load :: p => { s with threads := s.threads.set i ⟨p, s.counter⟩ }
+    | .store :: p =>
+      { s with threads := s.threads.set i ⟨p, t.reg⟩, counter := t.reg + 1,
+               log := s.log ++ [(i, t.reg + 1)] }
+
+/-- forgetting the counter: `load` and `store` are plain steps of the lock model -/
+def eraseInstr : Instr → Sched.Instr
+  | .acquire => .acquire
+  | .release => .release
+  | .step => .step
+  | .load => .step
+  | .store => .step
+
+def eraseThread (t : Thread) : Sched.Thread := ⟨t.prog.map eraseInstr⟩
+
+def erase (s : State) : Sched.State := { threads := s.threads.map eraseThread, holder := s.holder }
+
+/-- the lock discipline of `Sched.Disciplined`, on the erased program -/
+def Disciplined (p : List Instr) : Bool := Sched.Disciplined (p.map eraseInstr)
+
+/-- `ainside holding loaded p`: in `p` every `load` is immediately followed by `store`, every `store`
+    immediately preceded by `load`, and both occur while the thread holds the lock -/
+def ainside : Bool → Bool → List Instr → Bool
+  | _, l, [] => !l
+  | _, l, .acquire :: p => !l && ainside true false p
+  | _, l, .release :: p => !l && ainside false false p
+  | h, l, .step :: p => !l && ainside h false p
+  | h, l, .load :: p => h && !l && ainside h true p
+  | h, l, .store :: p => h && l && ainside h false p
+
+/-- every allocation (`load; store`) is one uninterrupted pair inside an acquire…release section -/
+def AllocInside (p : List Instr) : Bool := ainside false false p
+
+/-- the threads before they start: lock free, counter `c0`, nothing handed out -/
+def init (c0 : Nat) (progs : List (List Instr)) : State :=
+  { threads := progs.map (fun p => ⟨p, 0⟩), holder := none, counter := c0, log := [] }
+
+def run : State → List Nat → State
+  | s, [] => s
+  | s, i :: is => run (stepThread s i) is
+
+def ValidSched : State → List Nat → Prop
+  | _, [] => True
+  | s, i :: is => enabled s i = true ∧ ValidSched (stepThread s i) is
+
+def measure (s : State) : Nat := Sched.measure (erase s)
+
+def finished (s : State) : Bool := Sched.finished (erase s)
+
+/-- number of `store`s still to be executed -/
+def storesLeft : List Thread → Nat
+  | [] => 0
+  | t :: ts => t.prog.count .store + storesLeft ts
+
+/-- the invariant of the allocator: the lock invariant; the counter has advanced by one per id handed
+    out; the ids handed out are `c0+1, c0+2, …` in this order; a thread between its `load` and its
+    `store` (`l = true`) holds the lock and its register equals the counter -/
+structure AInv (c0 : Nat) (s : State) : Prop where
+  lock : Sched.Inv (erase s)
+  counter : s.counter = c0 + s.log.length
+  ids : s.log.map Prod.snd = (List.range s.log.length).map (fun n => c0 + 1 + n)
+  alloc : ∀ i t, s.threads[i]? = some t →
+    ∃ l, ainside (decide (s.holder = some i)) l t.prog = true ∧ (l = true → t.reg = s.counter)
+
+end Sst.SchedS
